@@ -26,6 +26,12 @@ Theorem C09_accepts_grammar_only : forall s t, parse s = POk t -> wf_ty t = true
 Proof. exact parse_wf. Qed.
 Print Assumptions C09_accepts_grammar_only.
 
+(* ... and the accepted input is that type's printed signature, with white space between tokens
+   at most: every other string is rejected *)
+Theorem C09_accepts_only_printed_signatures : forall s t, parse s = POk t -> unspace s = print t.
+Proof. exact parse_canonical. Qed.
+Print Assumptions C09_accepts_only_printed_signatures.
+
 (* any input is accepted or rejected with an error: the recursion bound chosen by Parse's model
    (length of the input + 1) is never reached, Kleene never spins *)
 Theorem C09_total : forall s, parse s <> PFuel.
